@@ -13,9 +13,11 @@ def plan(ex, tier, first):
            "intent_before_rename", "probe:replay_intent_before_rename")
     reg = ("intent is still registered when the index apply runs", T.make_p_intent_at_apply(ex),
            "register_intent", "probe:replay_register_intent")
-    p = [("put.finish", [unl, ibr, reg]), ("remove", [unl]), ("delete_orphan", [unl]), ("delete_orphans", [unl]),
+    # orphan clean-up: confirmed by a lock probe at the system-call layer (is the intents mutex locked at the very unlink/rename?)
+    unl_o = (unl[0], unl[1], "orphan_unlink_under_intents", "gatedprobe:replay_orphan_unlink_probe")
+    p = [("put.finish", [unl, ibr, reg]), ("remove", [unl]), ("delete_orphan", [unl_o]), ("delete_orphans", [unl_o]),
          ("quarantine_orphans", [("orphan quarantine happens under the pending_intents lock", T.p_quarantine_under_intents,
-                                  "unlink_under_intents", "probe:replay_unlink_under_intents")])]
+                                  "orphan_unlink_under_intents", "gatedprobe:replay_orphan_unlink_probe")])]
     if tier == "thorough" and first:
         p.append(("remove_range", [unl]))
     return p
